@@ -156,6 +156,10 @@ class Recorder:
 
     def __init__(self):
         self.log = []
+        # a hook written with functools.wraps(previous_hook) carries the hook it replaced as `__wrapped__`; whatever a hook
+        # carries, the hook itself is what must be restored and what receives a finished top-level tag
+        self.shadow = []
+        self.__wrapped__ = self.shadow.append
 
     def __call__(self, value):
         self.log.append(value)
